@@ -307,28 +307,37 @@ def m_storage_new(kind):
 def key_of(it, st, k):
     return strip_named(it.deref(st, k))
 
+def nsv(st, ns):
+    """number of writes to namespace ns so far on this path (reads between two writes see the same record)"""
+    return dict(st.wver).get(ns if isinstance(ns, str) else repr(ns), 0)
+def bump(st, ns):
+    d = dict(st.wver); k = ns if isinstance(ns, str) else repr(ns)
+    d[k] = d.get(k, 0) + 1; d['*'] = d.get('*', 0) + 1
+    st.wver = tuple(sorted(d.items()))
+    return d['*']
+
 def eff(st, rec):
     # (op, ns, key, value, result-term, site, stack, number of facts held when the effect happened)
     st.effects.append(rec + (st.stack, len(st.facts)))
 
 def m_map_load(it, st, args, info):
     ns = map_ns(it, st, args[0]); key = key_of(it, st, args[2])
-    t = ('sload', ns, key, 'load', st.wver, info['targs'])
+    t = ('sload', ns, key, 'load', nsv(st, ns), info['targs'])
     eff(st, ('read', ns, key, 'load', t, info['site']))
     return t
 def m_map_may_load(it, st, args, info):
     ns = map_ns(it, st, args[0]); key = key_of(it, st, args[2])
-    t = ('sload', ns, key, 'may_load', st.wver, info['targs'])
+    t = ('sload', ns, key, 'may_load', nsv(st, ns), info['targs'])
     eff(st, ('read', ns, key, 'may_load', t, info['site']))
     return t
 def m_item_load(it, st, args, info):
     ns = map_ns(it, st, args[0])
-    t = ('sload', ns, None, 'load', st.wver, info['targs'])
+    t = ('sload', ns, None, 'load', nsv(st, ns), info['targs'])
     eff(st, ('read', ns, None, 'load', t, info['site']))
     return t
 def do_save(it, st, ns, key, val, site):
-    st.wver += 1
-    r = ('sres', 'save', ns, key, st.wver)
+    n = bump(st, ns)
+    r = ('sres', 'save', ns, key, n)
     eff(st, ('save', ns, key, val, r, site))
     return r
 def m_map_save(it, st, args, info):
@@ -339,7 +348,7 @@ def m_item_save(it, st, args, info):
     return do_save(it, st, ns, None, strip_named(it.deref(st, args[2])), info['site'])
 def m_map_remove(it, st, args, info):
     ns = map_ns(it, st, args[0]); key = key_of(it, st, args[2])
-    st.wver += 1
+    bump(st, ns)
     # the in-memory record(s) of the map's value type held by the caller when the key is retired
     cands = []
     fr = info.get('frame'); targs = info.get('targs') or ()
@@ -354,7 +363,7 @@ def m_map_remove(it, st, args, info):
 def m_map_update(it, st, args, info):
     # cw-storage-plus 1.1.0 path.rs: input = may_load(store)?; output = action(input)?; save(store,&output)?; Ok(output)
     ns = map_ns(it, st, args[0]); key = key_of(it, st, args[2])
-    t = ('sload', ns, key, 'may_load', st.wver, info['targs'])
+    t = ('sload', ns, key, 'may_load', nsv(st, ns), info['targs'])
     eff(st, ('read', ns, key, 'may_load(update)', t, info['site']))
     outs = []
     for s, v in it.fork_variants(st, t, ['Ok', 'Err'], info['site']):
@@ -373,12 +382,12 @@ def m_map_update(it, st, args, info):
     return outs
 def m_map_is_empty(it, st, args, info):
     ns = map_ns(it, st, args[0])
-    t = ('call', 'storage_is_empty', (), (C(ns) if isinstance(ns, str) else ns, C(st.wver)))
+    t = ('call', 'storage_is_empty', (), (C(ns) if isinstance(ns, str) else ns, C(nsv(st, ns))))
     eff(st, ('read', ns, None, 'is_empty', t, info['site']))
     return t
 def m_map_range(it, st, args, info):
     ns = map_ns(it, st, args[0])
-    t = ('srange', ns, st.wver, info['targs'])
+    t = ('srange', ns, nsv(st, ns), info['targs'])
     eff(st, ('read', ns, None, 'range', t, info['site']))
     return t
 
@@ -553,7 +562,7 @@ def lookup(it, info):
         return m_pure
     if name.startswith(STORAGE_PREFIX) or orig.startswith(STORAGE_PREFIX):
         def unknown_storage(it_, st, args, info_):
-            st.wver += 1
+            bump(st, '?')
             eff(st, ('unknown_storage_api', info_['name'], None, None, None, info_['site']))
             return ('call', info_['name'], info_['targs'], tuple(strip_named(it_.deref(st, a)) for a in args))
         return unknown_storage
